@@ -122,6 +122,40 @@ CHECKS = {
             "{2 directions} x {2 storage modes} x {caches materialised or not} is executed and the "
             "untouched side is compared with a twin built from the same arrays.",
             "lazily created caches may appear; existing fields must stay bit-identical", "DESIGN.md §3 C16"),
+    "C17": ("exploration", "audit-event / prompt trace specification + before/after file digests over the output matrix",
+            "Every output scenario (writer functions with str/Path targets; evo_ape/evo_rpe/evo_traj/"
+            "evo_res output options incl. multi-file plot exports; evo_config generate -o) is first "
+            "run in an empty directory to learn its outputs, then with chosen subsets of them "
+            "pre-existing, each answer in {'y','n','','Y','yes',' y'} and warnings on/off; "
+            "sys.addaudithook records open-for-write/rename/remove/truncate, the scripted input "
+            "records prompts in the same event log; SHA-256 of every pre-existing file and the "
+            "directory listing give ground truth. thorough enumerates the whole matrix.",
+            "audit events are delivered for all Python-level file operations", "DESIGN.md §3 C17"),
+    "C18": ("exploration", "settings-file histories vs shadow expectations; Namespace equivalence of generated configs from the real parsers' typed actions",
+            "Random histories of set / toggle / reset / hard+soft merge / version upgrade (fresh "
+            "process) run on the real settings file of a private HOME and are judged after every "
+            "step on the stated invariants; SettingsContainer lock and -c priority are exercised; "
+            "option lists drawn from the typed actions of the evo_ape/evo_rpe/evo_traj parsers are "
+            "passed directly and through evo_config generate + -c and the Namespaces compared "
+            "(value and int-ness).", "string options get non-numeric strings; nan/inf tokens not generated",
+            "DESIGN.md §3 C18"),
+    "C19": ("fault_enumeration", "kill at every Python call boundary of the settings code + torn writes + fresh start; racing starts with yield injection and polling watcher",
+            "A real child process is killed with os._exit at every sys.monitoring CALL/C_RETURN "
+            "event of evo/tools/settings.py and evo/main_config.py in seven scenarios (quick: all "
+            "points of three scenarios, every third of the rest; thorough: all), plus 1-byte/half/"
+            "all-but-one torn variants of every write(); the disk state is classified and a real "
+            "fresh start must succeed with every default key. Racing rounds release 2..16 real "
+            "processes (optionally one of them upgrading/editing/resetting) with seeded yields at "
+            "the settings code's call boundaries while a watcher process polls the file.",
+            "state-changing syscalls are bracketed by Python-level call boundaries; interleavings are "
+            "sampled (distinct signatures counted), not enumerated", "DESIGN.md §3 C19"),
+    "C20": ("exploration", "recorded matplotlib call data vs trajectory coordinates through an own mode table",
+            "The Axes handed to evo's plot functions record every plot/scatter/add_collection/label "
+            "call and the line-collection constructors; sequences of 3..7 plot calls on the same "
+            "trajectory (7 modes x 4 units x stamped/unstamped x start times x markers) are "
+            "compared bitwise with the generating arrays through a mode table derived from the "
+            "mode's name; rpy is checked by reconstructing the rotation from the plotted angles.",
+            "Agg backend; call arguments are what matplotlib receives", "DESIGN.md §3 C20"),
     "C09": ("exploration", "runtime law monitors on the real Lie helpers (seeded hostile generators)",
             "Every group law of the statement is evaluated by a monitor on the real helpers for "
             "thousands of generated rotations/poses/similarities per run incl. angles within 1e-16 "
